@@ -277,6 +277,9 @@ def structure_obligations() -> list:
     obs.append(Obligation('wn.validate._select_checks:selection', PROP, 'static', decided=not bad,
                           detail=f'{n} selections of <= 2 selectors: exactly the selected codes in table order with '
                                  f'their docstrings' + (f'; counterexample {bad[0]}' if bad else ''),
+                          replay=(lambda res, w=(bad[0] if bad else None): {
+                              'reproduced': True, 'call': f'wn.validate._select_checks({w[0]!r})',
+                              'observed': repr(w[1]), 'expected': repr(w[2])}) if bad else None,
                           functions=('wn.validate._select_checks',)))
     inv = all(REVERSE_RELATIONS.get(REVERSE_RELATIONS[k]) == k for k in REVERSE_RELATIONS)
     obs.append(Obligation('wn.constants.REVERSE_RELATIONS:involution', PROP, 'static', decided=inv,
